@@ -10,9 +10,12 @@ freedom so that the rules see one spelling:
 * ``a < b < c`` -> ``a < b and b < c`` when ``b`` is a name, an attribute chain or a constant
 * ``not (a == b)`` -> ``a != b`` (and the other single comparisons), ``not not c`` -> ``c``, ``not (A and B)`` -> ``not A or not B``
 * ``a, b = x, y`` -> ``a = x; b = y`` when no right-hand side mentions a target
+* ``if C: x = A`` / ``else: x = B`` -> ``x = A if C else B``
 * ``if A: return X`` followed by ``if B: return X`` -> ``if A or B: return X`` (same single exit statement)
 * ``X if not c else Y`` -> ``Y if c else X``;  ``if not c: A else: B`` -> ``if c: B else: A`` (no elif chain); the same for the
   negative comparisons ``!=``, ``not in``, ``is not`` and for ``a <= b`` (written ``b < a`` with the branches exchanged)
+* ``x[len(x) - 1]`` -> ``x[-1]``;  keyword arguments in name order;  ``n - 1 - i`` -> ``n - i - 1`` (integer +/- chains: positive terms,
+  negative terms, folded constant)
 * ``range(0, n)`` -> ``range(n)``;  ``1 + i`` -> ``i + 1`` (integer constant operand of + and * goes to the right)
 * ``if a: if b: X`` -> ``if a and b: X`` (no else branches);  a loop body ``if c: continue; REST`` -> ``if not c: REST``
 * ``x = x + 1`` -> ``x += 1`` (name target, integer constant);  ``x += [y]`` -> ``x.append(y)``;  ``list()`` / ``dict()`` -> ``[]`` / ``{}``
@@ -118,6 +121,11 @@ class Canon(ast.NodeTransformer):
         self.generic_visit(node)
         node.body = self._stmts(node.body)
         node.orelse = self._stmts(node.orelse)
+        # if C: x = A  else: x = B   ->   x = A if C else B   (one plain-name assignment in each branch, same name)
+        if len(node.body) == 1 and len(node.orelse) == 1 and all(isinstance(b, ast.Assign) and len(b.targets) == 1 and isinstance(b.targets[0], ast.Name) for b in (node.body[0], node.orelse[0])) \
+                and node.body[0].targets[0].id == node.orelse[0].targets[0].id:
+            ife = self.visit_IfExp(ast.copy_location(ast.IfExp(test=node.test, body=node.body[0].value, orelse=node.orelse[0].value), node))
+            return ast.copy_location(ast.Assign(targets=[node.body[0].targets[0]], value=ife), node)
         if not node.orelse and len(node.body) == 1 and isinstance(node.body[0], ast.If) and not node.body[0].orelse:
             # if a: if b: X  ->  if a and b: X
             inner = node.body[0]
@@ -130,8 +138,20 @@ class Canon(ast.NodeTransformer):
                 return ast.copy_location(ast.If(test=t, body=node.orelse, orelse=node.body), node)
         return node
 
+    def visit_Subscript(self, node: ast.Subscript):
+        self.generic_visit(node)
+        # x[len(x) - k] -> x[-k]
+        sl = node.slice
+        if isinstance(sl, ast.BinOp) and isinstance(sl.op, ast.Sub) and isinstance(sl.right, ast.Constant) and type(sl.right.value) is int and sl.right.value >= 1 \
+                and isinstance(sl.left, ast.Call) and isinstance(sl.left.func, ast.Name) and sl.left.func.id == "len" and len(sl.left.args) == 1 \
+                and ast.dump(sl.left.args[0]) == ast.dump(node.value) and isinstance(node.value, (ast.Name, ast.Attribute)):
+            node.slice = ast.copy_location(ast.UnaryOp(op=ast.USub(), operand=ast.Constant(value=sl.right.value)), sl)
+        return node
+
     def visit_Call(self, node: ast.Call):
         self.generic_visit(node)
+        if len(node.keywords) > 1 and all(k.arg is not None for k in node.keywords):
+            node.keywords = sorted(node.keywords, key=lambda k: k.arg)  # keyword arguments in name order
         if isinstance(node.func, ast.Name) and not node.args and not node.keywords and node.func.id in ("list", "dict"):
             return ast.copy_location(ast.List(elts=[], ctx=ast.Load()) if node.func.id == "list" else ast.Dict(keys=[], values=[]), node)
         if isinstance(node.func, ast.Name) and node.func.id == "range" and len(node.args) == 2 and not node.keywords and isinstance(node.args[0], ast.Constant) and node.args[0].value == 0 \
@@ -162,7 +182,56 @@ class Canon(ast.NodeTransformer):
             return ast.copy_location(ast.Expr(value=ast.copy_location(call, node)), node)
         return node
 
+    @staticmethod
+    def _additive_terms(node: ast.AST, sign: int, out: list) -> bool:
+        """flatten a +/- chain into (sign, atom) terms; False when an atom is not a plain numeric-looking operand"""
+        if isinstance(node, ast.BinOp) and isinstance(node.op, (ast.Add, ast.Sub)):
+            return Canon._additive_terms(node.left, sign, out) and Canon._additive_terms(node.right, sign if isinstance(node.op, ast.Add) else -sign, out)
+        if isinstance(node, ast.UnaryOp) and isinstance(node.op, ast.USub):
+            return Canon._additive_terms(node.operand, -sign, out)
+        if isinstance(node, ast.Constant) and type(node.value) is int:
+            out.append((sign, node))
+            return True
+        if isinstance(node, (ast.Name, ast.Attribute)) or (isinstance(node, ast.Call) and isinstance(node.func, ast.Name) and node.func.id == "len") \
+                or (isinstance(node, ast.Subscript) and isinstance(node.value, (ast.Name, ast.Attribute)) and not isinstance(node.slice, ast.Slice)):
+            out.append((sign, node))
+            return True
+        return False
+
+    def _canon_additive(self, node: ast.BinOp):
+        """n - 1 - i -> n - i - 1: in a +/- chain that contains an integer constant (hence integer arithmetic) the positive terms come
+        first (by text), then the negative ones, then the folded constant"""
+        terms: list = []
+        if not self._additive_terms(node, 1, terms) or len(terms) < 3:
+            return node
+        const = sum(sg * t.value for sg, t in terms if isinstance(t, ast.Constant))
+        rest = [(sg, t) for sg, t in terms if not isinstance(t, ast.Constant)]
+        if len(rest) == len(terms) or not rest:
+            return node
+        pos = sorted((t for sg, t in rest if sg > 0), key=ast.unparse)
+        neg = sorted((t for sg, t in rest if sg < 0), key=ast.unparse)
+        if not pos:
+            return node
+        cur: ast.AST = pos[0]
+        for t in pos[1:]:
+            cur = ast.copy_location(ast.BinOp(left=cur, op=ast.Add(), right=t), node)
+        for t in neg:
+            cur = ast.copy_location(ast.BinOp(left=cur, op=ast.Sub(), right=t), node)
+        if const > 0:
+            cur = ast.copy_location(ast.BinOp(left=cur, op=ast.Add(), right=ast.Constant(value=const)), node)
+        elif const < 0:
+            cur = ast.copy_location(ast.BinOp(left=cur, op=ast.Sub(), right=ast.Constant(value=-const)), node)
+        return cur
+
     def visit_BinOp(self, node: ast.BinOp):
+        if isinstance(node.op, (ast.Add, ast.Sub)) and not getattr(node, "_chain_done", False):
+            new = self._canon_additive(node)
+            if new is not node:
+                for sub in ast.walk(new):
+                    if isinstance(sub, ast.BinOp):
+                        sub._chain_done = True  # type: ignore[attr-defined]
+                self.generic_visit(new)
+                return new
         self.generic_visit(node)
         if isinstance(node.op, (ast.Add, ast.Mult)) and isinstance(node.left, ast.Constant) and type(node.left.value) is int and not isinstance(node.right, ast.Constant):
             return ast.copy_location(ast.BinOp(left=node.right, op=node.op, right=node.left), node)
